@@ -158,7 +158,9 @@ func c13ConfAlgebra(c *Check) {
 				okCopy := len(a) == 2 && strings.Contains(a[1].Key(), ".checkAndCopy()#1")
 				f := fi.FactsAt(ret)
 				tested := &Facts{FI: fi, Atoms: f.Tested}
-				okErr := tested.HasSame(func(s *Sym) bool { return s.K == KExtract && s.Idx == 2 && s.Args[0].K == KCall && s.Args[0].Fn == checkAndCopy }, func(s *Sym) bool { return s.K == KNil }, true) != nil
+				okErr := tested.HasSame(func(s *Sym) bool {
+					return s.K == KExtract && s.Idx == 2 && s.Args[0].K == KCall && s.Args[0].Fn == checkAndCopy
+				}, func(s *Sym) bool { return s.K == KNil }, true) != nil
 				c.Result(okCopy && okErr, "C13.K", "Changer."+name+" works on a checked copy", fnName(fn), p.site(ret), "trk <- c.checkAndCopy() with err == nil (the input configuration is validated too)", sanitizeKey(a[1].Key()))
 			}
 		}
@@ -723,7 +725,6 @@ func reachesValue(v ssa.Value, target ssa.Value, depth int) bool {
 	}
 	return false
 }
-
 
 // derivedRoot: the parameter (or other root) whose reachable memory the value
 // denotes an interior part of. Results of calls are followed only when the
